@@ -22,3 +22,11 @@ func debugAppends(w *World) {
 		})
 	}
 }
+
+func debugOwnSites(w *World) {
+	o := newOwn(w)
+	o.analyseAll()
+	for _, s := range o.sites {
+		fmt.Printf("%-14s %-34s ok=%-5v need=%d have=%-40s %s | %s\n", w.InstrPos(s.in), FuncName(s.fn), s.ok, s.need, s.have, s.what, s.via)
+	}
+}
